@@ -111,6 +111,18 @@ def foreign_blocks(t, rnd, vendor):
     return t
 
 
+def no_leading_hash(t):
+    """a line STARTING with `#` is a comment for every reader; the remark characters are only looked at inside a row"""
+    out, seen = [], set()
+    for n in t:
+        row = (["description"] + n["row"]) if n["row"][0].startswith("#") else n["row"]
+        if tuple(row) in seen:
+            continue
+        seen.add(tuple(row))
+        out.append({"row": row, "kids": no_leading_hash(n["kids"])})
+    return out
+
+
 def iosxr_qos(t, rnd):
     """IOS-XR sub-domain: QoS blocks end with an `end-policy-map` / `end-class-map` row, which is an ordinary last child in annet's trees
     (only `end-set`, `endif`, `end-policy` are terminators of the policy language)"""
@@ -208,7 +220,11 @@ def run(ctx):
                 if tj:
                     observe("ros", v, tj)
                 continue
-            tj = rnd_tree(rnd, 0, rnd.choice([2, 3, 4, 5]), 3, WORDS_ASR if v == "iosxr" else WORDS)
+            # (free text inside rows may hold the characters some vendor's dump uses for end-of-line remarks: `##` is one in Nokia dumps, and a
+            # plain word in a tree rendered by annet: the reader of that text meets it inside descriptions; Junos comment syntax keeps it out there)
+            tj = rnd_tree(rnd, 0, rnd.choice([2, 3, 4, 5]), 3, WORDS_ASR if v == "iosxr" else (WORDS + ["##", "##100G"] if v == "nokia" else WORDS))
+            if v == "nokia":
+                tj = no_leading_hash(tj)
             if v in ("cisco", "nexus", "iosxr") and rnd.random() < 0.3:
                 tj = cisco_af(tj, rnd) if v == "cisco" else (iosxr_qos(tj, rnd) if v == "iosxr" else tj)
             elif rnd.random() < 0.25:
